@@ -42,3 +42,13 @@ Qed.
 Print Assumptions C20_sites_additive.
 Print Assumptions C20_direction_refinement.
 Print Assumptions C20_direction_script.
+
+(* Cargo's feature unification, modelled and decided on the regenerated manifests (proofs/FeatureUnification.v): for
+   both facade crates and every subset of their features, `likelysubtags` of the impl crates (the one feature that
+   changes an answer) is switched on iff the user asked for `likelysubtags`, and `serde` of unic-langid-impl iff the user
+   asked for `serde` - whatever `macros` pulls in *)
+From UL Require FeatureUnification.
+Theorem C20_feature_unification_adds_nothing :
+  FeatureUnification.unification_ok "unic-langid"%string = true /\ FeatureUnification.unification_ok "unic-locale"%string = true.
+Proof. exact FeatureUnification.feature_unification_adds_nothing. Qed.
+Print Assumptions C20_feature_unification_adds_nothing.
